@@ -146,3 +146,56 @@ def translation_failures(ctx, errors):
     broken translation obligation itself is reported by ctx.finish (no-failing-input-found)."""
     for e in errors:
         monitor_data(ctx, focus=e['item'])
+
+
+def trace_inclusion(ctx, meta):
+    """Validation of T2: observable-effect traces of real runs must be accepted by the regenerated programs
+    (Analysis/Accept.v, evaluated inside Coq).  A rejected trace = T2 or the semantics misdescribes the code."""
+    import hashlib
+    import json
+    cdir = os.path.join(core.WORK, 't2trace_cache')
+    os.makedirs(cdir, exist_ok=True)
+    hh = hashlib.sha256(open(os.path.join(core.VERIF, 'harness', 't2trace.py'), 'rb').read()).hexdigest()[:8]
+    cpath = os.path.join(cdir, '%s-%s-%s-%s.json' % (ctx.repo_hash, ctx.tier, ctx.seed, hh))
+    data = None
+    with core.Lock('t2trace'):
+        if os.path.exists(cpath):
+            try:
+                data = json.load(open(cpath))
+            except ValueError:
+                data = None
+        if data is None:
+            rc, data, out = ctx.run_harness_json('t2trace.py', timeout=600)
+            if data is None:
+                ctx.oblige('T2 validation: trace harness ran', False, out[-2000:])
+                return
+            with open(cpath + '.tmp', 'w') as f:
+                json.dump(data, f)
+            os.replace(cpath + '.tmp', cpath)
+            for old in sorted((os.path.join(cdir, f) for f in os.listdir(cdir)), key=os.path.getmtime)[:-20]:
+                os.remove(old)
+    cases = [c for c in data['cases'] if c.get('trace') and c['optimizer'] in meta and not c.get('error')]
+    errs = [c for c in data['cases'] if c.get('error')]
+    v = ['From Coq Require Import String List Bool Arith.', 'From OV Require Import Model.IR Analysis.Accept Gen.Programs.',
+         'Import ListNotations.', 'Definition cases : list bool := [']
+    rows = []
+    for c in cases:
+        tr = '; '.join('O' + ch for ch in c['trace'])
+        rows.append('  accepts %d %d %s prog_%s [%s]' % (c['n_agents'], c['n_iterations'], 'false' if c['optimizer'] == 'GP' else 'true',
+                                                         c['optimizer'], tr if c['optimizer'] != 'GP' else '; '.join('O' + ch for ch in c['trace'] if ch != 'R')))
+    v.append(';\n'.join(rows))
+    v.append('].')
+    v.append('Fixpoint bad (n : nat) (l : list bool) : list nat := match l with [] => [] | b :: t => if b then bad (S n) t else n :: bad (S n) t end.')
+    v.append('Goal True. let r := eval vm_compute in (bad 0 cases) in idtac "@@BAD" r "@@E". exact I. Qed.')
+    ok, out = ctx.coq_eval('\n'.join(v) + '\n', 't2trace', timeout=900)
+    if not ok:
+        ctx.oblige('T2 validation: traces evaluate in Coq', False, out[-2000:])
+        return
+    m = re.search(r'@@BAD(.*?)@@E', out, re.S)
+    bad = [int(x) for x in re.findall(r'\d+', m.group(1))] if m else [-1]
+    ctx.oblige('T2 validation: %d observable-effect traces of real runs (17 optimizers) are accepted by the regenerated programs' % len(cases),
+               not bad and not errs, 'rejected: %s; run errors: %s' % ([(cases[b]['optimizer'], cases[b]['n_agents'], cases[b]['n_iterations'], cases[b]['trace'][:120]) for b in bad[:4] if b >= 0],
+                                                                 [(c['optimizer'], c['error']) for c in errs[:3]]))
+    ctx.cov['t2_traces'] = {'accepted': len(cases) - len(bad), 'rejected': len(bad), 'events': sum(len(c['trace']) for c in cases)}
+    if cases:
+        ctx.sample({'t2_trace': {k: cases[0][k] for k in ('optimizer', 'n_agents', 'n_iterations', 'trace')}})
